@@ -1,5 +1,6 @@
 import CloakModel.Model.DgPipe
 import CloakModel.Lemmas.DgDemux
+import CloakModel.Gen.Deliver
 
 /-! # C14 — Datagram (UDP) mode preserves message boundaries and stream isolation
 
@@ -740,6 +741,10 @@ theorem gen_entry :
     Gen.Datagram.routeUDPBufLen ≥ DG.maxUnit Gen.Datagram.appDataMaxLengthClient + 1 ∧
     Gen.Datagram.routeUDPBufLen ≥ 65507 ∧
     Gen.Datagram.routeUDPWritesWhatWasRead = true ∧ Gen.Datagram.routeUDPRefusalDropsStream = true := by decide
+
+/-- per-stream goroutines of the UDP path own the values they work on ("never ... mixed with ... another stream's data") -/
+theorem gen_goroutines_own_values :
+    Gen.Deliver.serveSessionGoroutinesOwnTheirValues = true ∧ Gen.Deliver.routeUDPGoroutinesOwnTheirValues = true := by decide
 
 /-- the way back (`RouteUDP`'s per-stream goroutine): its read buffer holds the largest datagram one frame can carry with the
 client's on-wire limit, so by `c14_short_buffer_keeps`/`c14_exactly_once` no datagram the peer's `Write` accepted is refused
